@@ -454,3 +454,86 @@ pub fn stress_search(opts: &Opts) -> i32 {
     out_line("SUMMARY", &json!({"counts": {"runs": runs, "passes": passes}, "distinct": runs, "nontrivial": runs, "mismatches": 0, "samples": [], "extra": {}}));
     0
 }
+
+/// Extremal counters (C07): positions whose half-move and full-move counters are at the top of
+/// their 16-bit range can only be set up through the builder (the FEN grammar stops at four digits)
+/// or be reached by very long play; every safe operation on them - the three move operations,
+/// status, text, hash, generation, and a search, which applies moves itself - must neither trap nor
+/// wrap.  Likewise a search on top of a repetition history in which positions of the tree have been
+/// seen more often than an 8-bit counter can hold.
+pub fn stress_clocks(opts: &Opts) -> i32 {
+    let roots = read_json_file(&opts.str("roots", &crate::util::default_roots()));
+    let tags = opts.str("tags", "tiny,std,clock,promo");
+    let seed = opts.num("seed", 1);
+    let mut rng = rng(seed, 1900);
+    let mut calls = 0u64;
+    let mut runs = 0u64;
+    for r in roots.as_array().unwrap() {
+        if !r["tags"].as_array().unwrap().iter().any(|x| tags.split(',').any(|s| x == s)) {
+            continue;
+        }
+        let mut pos = r["pos"].clone();
+        for (hm, fm) in [(65535u64, 65535u64), (65534, 65535), (65535, 1), (99, 65535), (65534, 65534), (100, 9999)] {
+            pos["hm"] = json!(hm);
+            pos["fm"] = json!(fm);
+            op!("stress-clocks build {} hm={hm} fm={fm}", r["fen"]);
+            let Some(Ok(board)) = guarded(|| build_from_pos(&pos)) else { continue };
+            runs += 1;
+            let mut cur = board;
+            for ply in 0..6 {
+                op!("stress-clocks ply {ply} from {} hm={hm} fm={fm}", r["fen"]);
+                let ok = guarded(|| {
+                    let legals = legal_codes(&cur);
+                    let _ = cur.state();
+                    let _ = cur.to_string();
+                    let _ = format!("{cur:?}");
+                    let _ = cur.zobrist();
+                    let Some(&c) = legals.choose(&mut rng) else { return None };
+                    let mv = decode(c);
+                    let a = cur.move_new(mv)?;
+                    let mut b = cur;
+                    b.move_mut(mv);
+                    let mut into = cur;
+                    cur.move_into(mv, &mut into);
+                    // every legal move once, so that captures, pawn moves and castling are all applied
+                    for &c2 in &legals {
+                        let _ = cur.move_new(decode(c2));
+                    }
+                    Some(a)
+                });
+                calls += 1;
+                match ok {
+                    Some(Some(n)) => cur = n,
+                    _ => break,
+                }
+            }
+            if hung() {
+                break;
+            }
+            op!("stress-clocks search {} hm={hm} fm={fm}", r["fen"]);
+            let _ = run_search(&board, &[], Limit::At(400), false);
+            calls += 1;
+        }
+        // a search on top of a history that holds the root's neighbourhood 300 times
+        if let Ok(board) = r["fen"].as_str().unwrap().parse::<Board>() {
+            let mut hist = vec![];
+            for c in legal_codes(&board).into_iter().take(4) {
+                if let Some(n) = board.move_new(decode(c)) {
+                    for _ in 0..300 {
+                        hist.push(n);
+                    }
+                }
+            }
+            for _ in 0..300 {
+                hist.push(board);
+            }
+            if !hung() {
+                op!("stress-clocks search on a 300-fold history {}", r["fen"]);
+                let _ = run_search(&board, &hist, Limit::At(600), false);
+                calls += 1;
+            }
+        }
+    }
+    out_line("SUMMARY", &json!({"counts": {"runs": runs, "calls": calls}, "distinct": runs, "nontrivial": runs, "mismatches": 0, "samples": [], "extra": {}}));
+    0
+}
